@@ -333,9 +333,15 @@ void AbstractDiscreteDistribution::discretizeEqualProportions()
 
       double mean = Expectation(intMinMax_->getUpperBound()) - Expectation(intMinMax_->getLowerBound());
 
-      for (i = 0; i < numberOfCategories_; i++)
+      // The medians are rescaled by a common factor so that the discrete mean equals the mean of
+      // the parent.  This is only possible with a positive factor: when the medians sum to zero or
+      // have not the sign of the mean (centred distribution) they are kept as they are.
+      if (t != 0 && mean / t > 0)
       {
-        values[i] *= mean / t / ec;
+        for (i = 0; i < numberOfCategories_; i++)
+        {
+          values[i] *= mean / t / ec;
+        }
       }
     }
     else
